@@ -259,14 +259,22 @@ def mc_run(rep, work, module, constants, invariants, workers=8, timeout=3000, na
             f.write(f"  {k} = {v}\n")
         f.write("INVARIANTS " + " ".join(invariants) + "\nCHECK_DEADLOCK FALSE\n")
     out = work.path(f"{name}.tlc.out")
-    rc, _, wall = run_tlc(f"{module}.tla", cfg, workers=workers, timeout=timeout, outfile=out, extra=["-coverage", "1"] if False else None)
+    rc, _, wall = run_tlc(f"{module}.tla", cfg, workers=workers, timeout=timeout, outfile=out, extra=["-coverage", "1"])
     text_tail = subprocess.run(["grep", "-vE", '^<<"(PROG|MENU)"', out], capture_output=True, text=True).stdout
     gen_, dist = tlc_summary(text_tail)
     if "Model checking completed. No error has been found." not in text_tail:
         errs = [l for l in text_tail.splitlines() if "rror" in l or "violated" in l][:5]
         raise ToolError(f"model check of {module} did not complete cleanly (spec-level problem, not an implementation verdict): {errs} rc={rc}")
+    # vacuity: every action of the model module must have been taken (TLC -coverage: <Action ...>: distinct:generated)
+    actions = {}
+    for m in re.finditer(r"^<(\w+) line \d+, col \d+ to line \d+, col \d+ of module (\w+)>: (\d+):(\d+)", text_tail, re.M):
+        if m.group(2) == module:
+            actions[m.group(1)] = max(actions.get(m.group(1), 0), int(m.group(4)))
+    never = sorted(a for a, n in actions.items() if n == 0)
+    if never:
+        rep.error(f"model {module}: action(s) never taken within the bounds (vacuous run): {never}")
     rep.add_model(gen_, dist)
-    rep.stage(f"model:{name}", states=dist, transitions=gen_, constants=constants, invariants=invariants, wall_s=round(wall, 1))
+    rep.stage(f"model:{name}", states=dist, transitions=gen_, constants=constants, invariants=invariants, wall_s=round(wall, 1), actions_taken=actions)
     log(f"[{rep.pid}] model {name}: {dist} states, {wall:.1f}s")
     return out, dist
 
